@@ -1313,8 +1313,8 @@ func checkPanicSites(r *Run, prog *Program, a *Anchors, pfx string, roots map[*s
 	// 2. all sites
 	var fns []*ssa.Function
 	for f := range roots {
-		if len(f.Blocks) > 0 && !isPureReflectHelper(prog, f) {
-			fns = append(fns, f)
+		if len(f.Blocks) > 0 && !isPureReflectHelper(prog, f) && unwrapThunk(f) == f {
+			fns = append(fns, f) // (a method-expression thunk has no site of its own: it is looked through where it is called)
 		}
 	}
 	sort.Slice(fns, func(i, j int) bool { return fns[i].String() < fns[j].String() })
